@@ -188,6 +188,14 @@ impl Prop for C16 {
                         w.stats.bump("probe_failed_for_lack_of_allowance");
                     }
                 }
+                if !close_loop && !ok && need.map_or(false, |nd| len >= nd) && matches!(predicted, Resp::Ok(_)) {
+                    // more allowance than the sufficient estimate can not make a gas-oblivious program fail
+                    violation = Some(Violation::new(
+                        "allowance-above-estimate-failed",
+                        json!({"probe": k, "estimate": est.to_value(), "inscription_byte_len": len, "allowance(saturating)": allowance, "receipt": trunc(&receipt), "program": trunc(&serde_json::to_value(&data).unwrap())}),
+                    ));
+                    break 'probes;
+                }
                 if close_loop {
                     if !ok {
                         violation = Some(Violation::new(
